@@ -16,3 +16,8 @@ def gen_config(rng, tier):
             ops[k] = w * rng.choice([0.5, 1.0, 2.0])
     return {"n": n, "steps": rng.randrange(5, 40), "ops": ops, "faults": [], "flags": ["c10"],
             "max_gates": rng.choice([4, 8, 12]), "backend": "torch" if rng.random() < 0.15 else "numpy"}
+
+
+# reach guard: a full-size batch in which one of these never fired means the workload or the
+# harness has rotted (exit 2, never a pass)
+REQUIRED_REACH = ['config:circuit_roundtrip', 'config:layer_roundtrip', 'config:gate_roundtrip', 'roundtrip_circuit_compiled_2+gates', 'roundtrip_through_nontrivial_image', 'config:copy']
